@@ -19,9 +19,9 @@ import (
 
 func cases(tier string) int {
 	if tier == "thorough" {
-		return 8000
+		return 12000
 	}
-	return 400
+	return 1000
 }
 
 func cliEvery(tier string) int {
